@@ -10,9 +10,13 @@ package phyloxml
 //@   assigns nothing
 //@   ensures [document_or_error] err == nil ==> px != nil
 
+// phylogenyToTree: the phylogeny is converted, under no parent, into the given tree, with
+// both numberings starting at zero; a failing conversion is reported
 //@ func io/phyloxml.phylogenyToTree
 //@   flag treeop
+//@   flag noframe
 //@   requires p != nil && t != nil
+//@   call io/phyloxml.cladeToTree [into_the_given_tree_under_no_parent_numbering_from_zero] a1 == t && a2 == nil && nedges == 0 && nnodes == 0
 
 // ---------------------------------------------------------------------------
 // First-tree accessor vs. iterator (property C13): whenever the document holds
